@@ -54,10 +54,10 @@ Theorem C17_throttle_bound_total_every_schedule : forall cfg h ss ops L t0 T,
 Proof. exact throttle_bound_total_any. Qed.
 
 (* no byte is pulled before the latency has passed; a connection cancelled while waiting is never read *)
-Theorem C17_first_read_after_latency : forall cfg h ss ops c t b bs,
+Theorem C17_first_read_after_latency : forall cfg h ss ops c t b bs er,
   0 < rq cfg -> 0 < trq cfg -> provision cfg = Some h ->
   Forall op_ok ops -> Forall session_ok ss ->
-  In (EPull c t b bs) (snd (run h ss ops)) ->
+  In (EPull c t b bs er) (snd (run h ss ops)) ->
   exists s, nth_error ss c = Some s /\ (0 < latency cfg -> scancel s = false) /\
             sstart s + Z.max 0 (latency cfg) <= t.
 Proof. exact first_read_after_latency. Qed.
@@ -69,9 +69,9 @@ Theorem C17_throttle_identity : forall h ss ops c s,
 Proof. exact throttle_identity_gen. Qed.
 
 (* every inner Read asks for at most batch bytes, and batch is within both bursts *)
-Theorem C17_read_within_batch : forall cfg h ss ops c t b bs,
+Theorem C17_read_within_batch : forall cfg h ss ops c t b bs er,
   0 < rq cfg -> 0 < trq cfg -> provision cfg = Some h -> Forall op_ok ops ->
-  In (EPull c t b bs) (snd (run h ss ops)) ->
+  In (EPull c t b bs er) (snd (run h ss ops)) ->
   Z.of_nat (length bs) <= b /\ (forall L, htotal h = Some L -> b <= lburst L) /\ (forall L, hlocal h = Some L -> b <= lburst L).
 Proof. exact read_within_batch. Qed.
 
@@ -98,11 +98,11 @@ Definition ex_ss : list session :=
     {| sstart := 1001000000; sjit := 0; scancel := false; sdata := ex_data |};
     {| sstart := 1001000000; sjit := 0; scancel := true; sdata := ex_data |} ].
 Definition ex_ops : list op :=
-  [ {| oc := 0; olen := 4096; odelay := 0; oj2 := 10; oj3 := 10; oavail := 4096 |};
-    {| oc := 0; olen := 4096; odelay := 20000; oj2 := 10; oj3 := 10; oavail := 4096 |};
-    {| oc := 1; olen := 64; odelay := 0; oj2 := 0; oj3 := 5; oavail := 10 |};
-    {| oc := 2; olen := 64; odelay := 0; oj2 := 0; oj3 := 0; oavail := 64 |};
-    {| oc := 0; olen := 4096; odelay := 150000000; oj2 := 0; oj3 := 0; oavail := 4096 |} ].
+  [ {| oc := 0; olen := 4096; odelay := 0; oj2 := 10; oj3 := 10; oavail := 4096; oerr := 0 |};
+    {| oc := 0; olen := 4096; odelay := 20000; oj2 := 10; oj3 := 10; oavail := 4096; oerr := 0 |};
+    {| oc := 1; olen := 64; odelay := 0; oj2 := 0; oj3 := 5; oavail := 10; oerr := 0 |};
+    {| oc := 2; olen := 64; odelay := 0; oj2 := 0; oj3 := 0; oavail := 64; oerr := 0 |};
+    {| oc := 0; olen := 4096; odelay := 150000000; oj2 := 0; oj3 := 0; oavail := 4096; oerr := 0 |} ].
 
 Example C17_nonvacuous :
   exists h L LT, provision ex_cfg = Some h /\ hlocal h = Some L /\ htotal h = Some LT /\
@@ -132,7 +132,7 @@ Definition bj_cfg : tconfig :=
   {| rp := 0; rq := 1; rmax := false; rburst := 0; trp := 1000; trq := 1; trmax := false; tburst := 100; latency := 0 |}.
 Definition bj_ss : list session :=
   repeat {| sstart := 0; sjit := 0; scancel := false; sdata := repeat x42 1000 |} 3.
-Definition bj_op (c : nat) (t : Z) : op := {| oc := c; olen := 100; odelay := t; oj2 := 0; oj3 := 0; oavail := 100 |}.
+Definition bj_op (c : nat) (t : Z) : op := {| oc := c; olen := 100; odelay := t; oj2 := 0; oj3 := 0; oavail := 100; oerr := 0 |}.
 Definition bj_ops : list op := [bj_op 1 900000000; bj_op 0 1000000000; bj_op 2 950000000; bj_op 0 1050000000].
 Example C17_back_jump_excess :
   exists h L, provision bj_cfg = Some h /\ htotal h = Some L /\
@@ -148,7 +148,24 @@ Proof.
   vm_compute. repeat split; discriminate.
 Qed.
 
+(* bytes that the inner connection hands over together with an error (n > 0 and io.EOF, or a
+   reset) are delivered like any others: 100-byte reads of a 137-byte stream, the second inner
+   Read returns the last 37 bytes with io.EOF (err = 1) *)
+Definition ie_cfg : tconfig :=
+  {| rp := 10000000; rq := 1; rmax := false; rburst := 512; trp := 0; trq := 1; trmax := false; tburst := 0; latency := 0 |}.
+Definition ie_ss : list session := [{| sstart := 0; sjit := 0; scancel := false; sdata := repeat x43 137 |}].
+Definition ie_ops : list op :=
+  [ {| oc := 0; olen := 100; odelay := 0; oj2 := 0; oj3 := 0; oavail := 100; oerr := 0 |};
+    {| oc := 0; olen := 100; odelay := 10; oj2 := 0; oj3 := 0; oavail := 100; oerr := 1 |} ].
+Example C17_identity_with_error :
+  exists h, provision ie_cfg = Some h /\
+    (exists t, In (EPull 0%nat t 100 (repeat x43 37) 1) (snd (run h ie_ss ie_ops))) /\
+    stream_of 0%nat (snd (run h ie_ss ie_ops)) = repeat x43 137 /\
+    winner (fst (run h ie_ss ie_ops)) 0%nat = [].
+Proof. eexists. split; [vm_compute; reflexivity|]. split; [eexists; vm_compute; auto|]. vm_compute. auto. Qed.
+
 Print Assumptions C17_throttle_bound.
+Print Assumptions C17_identity_with_error.
 Print Assumptions C17_back_jump_excess.
 Print Assumptions C17_throttle_bound_total.
 Print Assumptions C17_throttle_bound_every_schedule.
